@@ -81,6 +81,14 @@ pub fn filt(toks: &[&str]) -> Option<String> {
         Ok(Err(_)) => "err".to_string(),
         Ok(Ok(f)) => paths.iter().map(|p| if crate::doer::verif_apply_filters(&super::l2::rrp(p), &f) { '1' } else { '0' }).collect(),
     };
+    // what a remote doer evaluates: the Filters value after its trip over the wire (bincode)
+    let remotev = match std::panic::catch_unwind(|| crate::boss_sync::verif_compile_filters(&filters)) {
+        Ok(Ok(f)) => match bincode::serialize(&f).ok().and_then(|b| bincode::deserialize::<crate::boss_doer_interface::Filters>(&b).ok()) {
+            Some(f2) => paths.iter().map(|p| if crate::doer::verif_apply_filters(&super::l2::rrp(p), &f2) { '1' } else { '0' }).collect(),
+            None => "wire-err".to_string(),
+        },
+        _ => implv.clone(),
+    };
     let mut compiled = vec![];
     let mut oracle_ok = true;
     for f in &filters {
@@ -101,7 +109,7 @@ pub fn filt(toks: &[&str]) -> Option<String> {
             if verdict { '1' } else { '0' }
         }).collect()
     };
-    Some(format!("impl={} oracle={}", implv, oracle))
+    Some(format!("impl={} oracle={} remote={}", implv, oracle, remotev))
 }
 
 /// `key <hex32>`: the two expressions of the key hand-over, as written in boss_launch.rs / doer.rs
